@@ -7,6 +7,7 @@
 //	rtq <cells|ss> <cell>*                    the same with VAXIS_FORCE_LEGACY_SGR applied
 //	rtl <cells|ss> <lcell>*                   round trip of cells that carry hyperlinks; lcell = hex(g)/style/hex(url)/hex(params);
 //	                                          impl = the cells that came back, same format
+//	encbl <cells|ss> <lcell>*                 impl = hex of the exact string the real producer wrote for cells with hyperlinks
 //	encb <cells|ss> <caps> <cell>*            impl = hex of the exact string the real producer wrote (byte level)
 //	decb <cells|ss> <style> <hex> <table>     impl = cells the real parser returned for that exact string; table =
 //	                                          rune length of the first grapheme cluster (uniseg) of the suffix at every rune offset
@@ -485,7 +486,7 @@ func (e *env) exec(op []string) (string, bool) {
 		return "", false
 	}
 	switch op[0] {
-	case "rtl":
+	case "rtl", "encbl":
 		var cells []vaxis.Cell
 		for _, t := range op[2:] {
 			c, ok := parseLCell(t)
@@ -493,6 +494,9 @@ func (e *env) exec(op []string) (string, bool) {
 				return "", false
 			}
 			cells = append(cells, c)
+		}
+		if op[0] == "encbl" {
+			return e.doEncB(op[1], 3, cells), true
 		}
 		return e.doRtl(op[1], cells), true
 	case "encb":
@@ -828,6 +832,7 @@ func (e *env) genRt(rng *gen.Rng) {
 		}
 		e.emit(fmt.Sprintf("rtl %s %s", which, strings.Join(cs, " ")))
 		r.Count("rtl:" + which)
+		e.emit(fmt.Sprintf("encbl %s %s", which, strings.Join(cs, " ")))
 		// the same string at the byte level, read by both parsers
 		str := ""
 		if which == "cells" {
